@@ -498,7 +498,7 @@ func (vf *VerifyFunc) indexAddr(st *State, fr *Frame, x *ssa.IndexAddr) *Val {
 			return &Val{T: x.Type(), S: SInt, Tm: cell, A: &Addr{Kind: "bytes", Base: cell, Idx: idx.Tm, ElemT: et}}
 		}
 		vf.boundsCheck(st, idx.Tm, "(s_len "+base.Tm+")", x)
-		abs := "(+ (s_off " + base.Tm + ") " + idx.Tm + ")"
+		abs := "(sidx (s_off " + base.Tm + ") " + idx.Tm + ")"
 		if structFields(et) != nil {
 			return &Val{T: x.Type(), S: SInt, Tm: st.elemObj("(s_base "+base.Tm+")", abs)}
 		}
